@@ -28,7 +28,7 @@ def build_fgg(spec, fggs, weights=None, explicit_ids=False):
             rhs.add_node(v)
             nodes.append(v)
         for ei, e in enumerate(r['edges']):
-            rhs.add_edge(fggs.Edge(labels[e['label']], [nodes[i] for i in e['att']], id=(f'r{ri}e{ei}' if explicit_ids else None)))
+            rhs.add_edge(fggs.Edge(labels[e['label']], [nodes[i] for i in e['att']], id=(e.get('id', f'r{ri}e{ei}') if explicit_ids else None)))
         rhs.ext = [nodes[i] for i in r['ext']]
         g.add_rule(fggs.HRGRule(labels[r['lhs']], rhs))
     for l, n in spec['domains'].items():
